@@ -49,11 +49,16 @@ CLAIMS = {
   text="Contract-based deductive proof over the real source, for all record arrays, that record_links connects exactly the time-adjacent "
        "fragments of one pulse in one channel (next_record is the inverse of previous_record, nothing else is linked), that "
        "zero_out_of_bounds and cut_baseline zero exactly the stated samples and leave every other sample and all metadata untouched, and "
-       "that overlap_indices is the set-theoretic intersection. find_hits (all fields), cut_outside_hits, baseline and integrate are "
+       "that overlap_indices is the set-theoretic intersection, and that the reduction kernel _cut_outside_hits keeps a sample exactly if it lies within the "
+       "left / right extension of some hit - in the hit's own record or continuing into the linked previous / next fragment of the pulse - zeroes every other "
+       "sample and never alters metadata (proved modularly over the contracts of record_links and overlap_indices). find_hits (all fields), the wrapper "
+       "cut_outside_hits, baseline and integrate are "
        "covered by bounded stand-ins against their direct definitions (labelled bounded, not counted as proved).",
-  note="Not proved: _find_hits / _cut_outside_hits (buffer-yield mechanics of growing_result, slice copies) and the float fields. Trusted: "
+  note="Not proved: _find_hits (buffer-yield mechanics of growing_result) and the float fields; the wrapper cut_outside_hits (blank copy, HITS_ONLY mark) is bounded. "
+       "_cut_outside_hits is proved under the premise that every hit lies inside the valid samples of the record it names (what find_hits produces); "
+       "'covered by one of the first k hits' is a ghost predicate defined by unfolding. Trusted: "
        "pyvc, z3/cvc5, integers mathematical (int16 samples), numba faithful (each stand-in input also runs through .py_func).",
-  technique="contract-based deductive verification (loop invariants over record arrays, frame clauses) + bounded stand-ins for 4 functions",
+  technique="contract-based deductive verification (loop invariants over record arrays, frame clauses, modular calls through proved contracts) + bounded stand-ins for 4 functions",
   design_ref="DESIGN.md section 6, C18"),
  "C19": dict(
   category="exploration",
